@@ -2,7 +2,9 @@
   C06 — finite functions form a category with coproducts and coequalizers.
   Property theorems only (helpers live in OHVerif/Lemmas).
 -/
-import OHVerif.Model.FinFun
+import OHVerif.Lemmas.FinFun
+import OHVerif.Lemmas.VecBackend
+import OHVerif.Spec.Lawful
 
 namespace OH.C06
 open OH OH.FinFun
@@ -86,5 +88,613 @@ theorem new_accepts_iff (t : List Nat) (k : Nat) :
 
 example : FinFun.new [0, 2, 1] 3 = .ok ⟨[0, 2, 1], 3⟩ := by decide
 example : FinFun.new [0, 3, 1] 3 = .none := by decide
+
+/-! ## composition -/
+
+/-- composition of well-formed maps with matching (co)domain is pointwise application -/
+theorem compose_spec (f g : FinFun) (hf : f.WF) (hg : g.WF) (h : f.target = g.source) :
+    ∃ r, compose f g = .ok r ∧ r.target = g.target ∧ r.table.length = f.table.length ∧
+      (∀ i : Nat, r.table[i]? = f.table[i]?.bind (fun x => g.table[x]?)) ∧
+      (∀ i : Nat, i < f.source →
+        ∃ x y, f.table[i]? = some x ∧ g.table[x]? = some y ∧ r.table[i]? = some y) ∧
+      r.WF := by
+  have hr : ∀ i ∈ f.table, i < g.table.length := fun i hi => by
+    have := hf i hi; rw [h] at this; exact this
+  have hpt : ∀ i : Nat, (Prim.gatherP g.table f.table)[i]? = f.table[i]?.bind (fun x => g.table[x]?) :=
+    gatherP_getElem? _ _ hr
+  refine ⟨⟨Prim.gatherP g.table f.table, g.target⟩, compose_ok f g hf h, rfl,
+    gatherP_length _ _ hr, hpt, ?_, ?_⟩
+  · intro i hi
+    have hx : f.table[i]? = some f.table[i] := List.getElem?_eq_getElem hi
+    have hxl : f.table[i] < g.table.length := hr _ (List.getElem_mem hi)
+    refine ⟨f.table[i], g.table[f.table[i]], hx, List.getElem?_eq_getElem hxl, ?_⟩
+    show (Prim.gatherP g.table f.table)[i]? = _
+    rw [hpt, hx]
+    exact List.getElem?_eq_getElem hxl
+  · intro y hy
+    obtain ⟨i, hi⟩ := List.mem_iff_getElem?.mp hy
+    change (Prim.gatherP g.table f.table)[i]? = some y at hi
+    rw [hpt] at hi
+    cases hfi : f.table[i]? with
+    | none => rw [hfi] at hi; simp at hi
+    | some x =>
+      rw [hfi] at hi
+      exact hg.getElem?_lt hi
+
+/-- on a well-formed first argument composition never panics -/
+theorem compose_total (f g : FinFun) (hf : f.WF) :
+    compose f g = .none ∨ ∃ r, compose f g = .ok r := by
+  by_cases h : f.target = g.source
+  · exact Or.inr ⟨_, compose_ok f g hf h⟩
+  · exact Or.inl (compose_none f g h)
+
+theorem compose_no_panic (f g : FinFun) (hf : f.WF) (s : String) : compose f g ≠ .panic s :=
+  compose_ne_panic f g hf s
+
+example : (⟨[2, 0, 1, 1], 3⟩ : FinFun).WF ∧ (⟨[5, 6, 4], 7⟩ : FinFun).WF ∧
+    compose ⟨[2, 0, 1, 1], 3⟩ ⟨[5, 6, 4], 7⟩ = .ok ⟨[4, 5, 6, 6], 7⟩ := by decide
+
+/-! ## identities, initial, terminal and constant maps -/
+
+theorem identity_spec (a : Nat) :
+    identity a = .ok ⟨List.range a, a⟩ ∧ (∀ i : Nat, i < a → (List.range a)[i]? = some i) ∧
+      (⟨List.range a, a⟩ : FinFun).source = a ∧ (⟨List.range a, a⟩ : FinFun).WF := by
+  refine ⟨identity_eq a, ?_, by simp [source], ?_⟩
+  · intro i hi; simp [hi]
+  · intro x hx; simpa using hx
+
+example : identity 3 = .ok ⟨[0, 1, 2], 3⟩ := by decide
+
+/-- identities are neutral for composition -/
+theorem identity_compose (f : FinFun) (hf : f.WF) :
+    (identity f.source >>= fun i => compose i f) = .ok f ∧
+    (identity f.target >>= fun i => compose f i) = .ok f := by
+  constructor
+  · rw [identity_eq, Res.ok_bind]
+    obtain ⟨r, hr, ht, hl, hp, _, _⟩ := compose_spec ⟨List.range f.source, f.source⟩ f
+      (fun x hx => by simpa using hx) hf rfl
+    rw [hr]
+    congr 1
+    cases r with
+    | mk tb tg =>
+      simp only at ht hl hp
+      subst ht
+      congr 1
+      apply List.ext_getElem?
+      intro i
+      rw [hp]
+      by_cases hi : i < f.source
+      · simp [hi]
+      · have : f.table.length ≤ i := Nat.le_of_not_lt hi
+        simp [hi, List.getElem?_eq_none this]
+  · rw [identity_eq, Res.ok_bind]
+    rw [compose_ok_map f ⟨List.range f.target, f.target⟩ (fun x => x) (by simp [source])]
+    · simp
+    · intro i hi
+      have := hf i hi
+      simp [this]
+
+theorem initial_spec (a : Nat) :
+    initial a = ⟨[], a⟩ ∧ (initial a).source = 0 ∧ (initial a).target = a ∧ (initial a).WF := by
+  refine ⟨rfl, rfl, rfl, ?_⟩
+  intro x hx; simp [initial] at hx
+
+theorem terminal_spec (a : Nat) :
+    (terminal a).target = 1 ∧ (terminal a).source = a ∧
+      (∀ i : Nat, i < a → (terminal a).table[i]? = some 0) ∧ (terminal a).WF := by
+  refine ⟨rfl, by simp [terminal, source], ?_, ?_⟩
+  · intro i hi; simp [terminal, hi]
+  · intro x hx
+    simp only [terminal, List.mem_replicate] at hx
+    simp [terminal, hx.2]
+
+theorem constant_spec (a x b : Nat) :
+    (constant a x b).target = x + b + 1 ∧ (constant a x b).source = a ∧
+      (constant a x b).table = List.replicate a x ∧
+      (∀ i : Nat, i < a → (constant a x b).table[i]? = some x) ∧ (constant a x b).WF := by
+  refine ⟨rfl, by simp [constant, source], rfl, ?_, ?_⟩
+  · intro i hi; simp [constant, hi]
+  · intro y hy
+    simp only [constant, List.mem_replicate] at hy
+    simp only [constant, hy.2]
+    omega
+
+example : constant 3 2 4 = ⟨[2, 2, 2], 7⟩ ∧ terminal 2 = ⟨[0, 0], 1⟩ := by decide
+
+/-! ## coproduct injections and their direct forms -/
+
+theorem inj0_spec (a b : Nat) :
+    inj0 a b = .ok ⟨List.range a, a + b⟩ ∧ (∀ i : Nat, i < a → (List.range a)[i]? = some i) ∧
+      (⟨List.range a, a + b⟩ : FinFun).source = a ∧ (⟨List.range a, a + b⟩ : FinFun).WF := by
+  refine ⟨inj0_eq a b, ?_, by simp [source], ?_⟩
+  · intro i hi; simp [hi]
+  · intro x hx
+    have : x < a := by simpa using hx
+    show x < a + b
+    omega
+
+theorem inj1_spec (a b : Nat) :
+    inj1 a b = .ok ⟨List.range' a b, a + b⟩ ∧
+      (∀ i : Nat, i < b → (List.range' a b)[i]? = some (a + i)) ∧
+      (⟨List.range' a b, a + b⟩ : FinFun).source = b ∧ (⟨List.range' a b, a + b⟩ : FinFun).WF := by
+  refine ⟨inj1_eq a b, ?_, by simp [source], ?_⟩
+  · intro i hi; simp [hi]
+  · intro x hx
+    have := List.mem_range'_1.mp hx
+    show x < a + b
+    omega
+
+example : inj0 2 3 = .ok ⟨[0, 1], 5⟩ ∧ inj1 2 3 = .ok ⟨[2, 3, 4], 5⟩ := by decide
+
+/-- `inject0 f b` is `f` followed by the left injection (the direct form agrees with the composite) -/
+theorem inject0_eq (f : FinFun) (b : Nat) (hf : f.WF) :
+    (inj0 f.target b >>= fun j => compose f j) = .ok (inject0 f b) := by
+  rw [inj0_eq, Res.ok_bind,
+    compose_ok_map f ⟨List.range f.target, f.target + b⟩ (fun x => x) (by simp [source])]
+  · simp [inject0, Nat.add_comm]
+  · intro i hi
+    have := hf i hi
+    simp [this]
+
+/-- `inject1 f a` is `f` followed by the right injection -/
+theorem inject1_eq (f : FinFun) (a : Nat) (hf : f.WF) :
+    (inj1 a f.target >>= fun j => compose f j) = .ok (inject1 f a) := by
+  rw [inj1_eq, Res.ok_bind,
+    compose_ok_map f ⟨List.range' a f.target, a + f.target⟩ (fun x => a + x) (by simp [source])]
+  · rfl
+  · intro i hi
+    have := hf i hi
+    simp [this]
+
+theorem inject0_wf (f : FinFun) (b : Nat) (hf : f.WF) : (inject0 f b).WF := by
+  intro x hx
+  have := hf x hx
+  show x < b + f.target
+  omega
+
+theorem inject1_wf (f : FinFun) (a : Nat) (hf : f.WF) : (inject1 f a).WF := by
+  intro x hx
+  simp only [inject1, List.mem_map] at hx
+  obtain ⟨y, hy, rfl⟩ := hx
+  have := hf y hy
+  show a + y < a + f.target
+  omega
+
+example : (⟨[1, 0, 1], 2⟩ : FinFun).WF ∧
+    (inj0 2 3 >>= fun j => compose ⟨[1, 0, 1], 2⟩ j) = .ok (inject0 ⟨[1, 0, 1], 2⟩ 3) ∧
+    (inj1 3 2 >>= fun j => compose ⟨[1, 0, 1], 2⟩ j) = .ok (inject1 ⟨[1, 0, 1], 2⟩ 3) ∧
+    inject1 ⟨[1, 0, 1], 2⟩ 3 = ⟨[4, 3, 4], 5⟩ := by decide
+
+/-- coproduct and tensor of well-formed maps are well-formed -/
+theorem coproduct_wf (f g : FinFun) (hf : f.WF) (hg : g.WF) (h : f.target = g.target) :
+    (⟨f.table ++ g.table, f.target⟩ : FinFun).WF := by
+  intro x hx
+  rcases List.mem_append.mp hx with hx | hx
+  · exact hf x hx
+  · show x < f.target
+    rw [h]; exact hg x hx
+
+theorem tensor_wf (f g : FinFun) (hf : f.WF) (hg : g.WF) : (tensor f g).WF := by
+  intro x hx
+  simp only [tensor, List.mem_append, List.mem_map] at hx
+  show x < f.target + g.target
+  rcases hx with hx | ⟨y, hy, rfl⟩
+  · have := hf x hx; omega
+  · have := hg y hy; omega
+
+/-- the coproduct restricted along the injections gives back the components -/
+theorem coproduct_inj (f g : FinFun) (hf : f.WF) (hg : g.WF) (h : f.target = g.target) :
+    (inj0 f.source g.source >>= fun j => compose j ⟨f.table ++ g.table, f.target⟩) = .ok f ∧
+    (inj1 f.source g.source >>= fun j => compose j ⟨f.table ++ g.table, f.target⟩) = .ok g := by
+  constructor
+  · rw [inj0_eq, Res.ok_bind]
+    obtain ⟨r, hr, ht, hl, hp, _, _⟩ := compose_spec ⟨List.range f.source, f.source + g.source⟩
+      ⟨f.table ++ g.table, f.target⟩
+      (fun x hx => by have : x < f.source := by simpa using hx
+                      show x < f.source + g.source
+                      omega)
+      (coproduct_wf f g hf hg h) (by simp [source])
+    rw [hr]
+    congr 1
+    cases r with
+    | mk tb tg =>
+      simp only at ht hl hp
+      subst ht
+      congr 1
+      apply List.ext_getElem?
+      intro i
+      rw [hp]
+      by_cases hi : i < f.source
+      · have hi' : i < f.table.length := hi
+        simp [hi, List.getElem?_append_left hi']
+      · have : f.table.length ≤ i := Nat.le_of_not_lt hi
+        simp [hi, List.getElem?_eq_none this]
+  · rw [inj1_eq, Res.ok_bind]
+    obtain ⟨r, hr, ht, hl, hp, _, _⟩ := compose_spec
+      ⟨List.range' f.source g.source, f.source + g.source⟩ ⟨f.table ++ g.table, f.target⟩
+      (fun x hx => by have := List.mem_range'_1.mp hx
+                      show x < f.source + g.source
+                      omega)
+      (coproduct_wf f g hf hg h) (by simp [source])
+    rw [hr]
+    congr 1
+    cases r with
+    | mk tb tg =>
+      simp only at ht hl hp
+      subst ht
+      rw [h]
+      congr 1
+      apply List.ext_getElem?
+      intro i
+      rw [hp]
+      by_cases hi : i < g.source
+      · have hi' : i < g.table.length := hi
+        have e : (List.range' f.table.length g.table.length)[i]? = some (f.table.length + i) := by
+          simp [hi']
+        have hle : f.table.length ≤ f.table.length + i := Nat.le_add_right _ _
+        simp only [source]
+        rw [e]
+        simp [List.getElem?_append_right hle]
+      · have : g.table.length ≤ i := Nat.le_of_not_lt hi
+        simp [hi, List.getElem?_eq_none this]
+
+example : coproduct ⟨[1, 0], 2⟩ ⟨[1, 1, 0], 2⟩ = .ok ⟨[1, 0, 1, 1, 0], 2⟩ ∧
+    tensor ⟨[1, 0], 2⟩ ⟨[2, 0], 3⟩ = ⟨[1, 0, 4, 2], 5⟩ := by decide
+
+/-! ## symmetry -/
+
+/-- `twist a b : a + b → b + a` moves the first block behind the second; it is a bijection -/
+theorem twist_spec (a b : Nat) :
+    ∃ t, twist a b = .ok t ∧ t.target = a + b ∧ t.table.length = a + b ∧
+      (∀ i : Nat, i < a → t.table[i]? = some (i + b)) ∧
+      (∀ i : Nat, a ≤ i → i < a + b → t.table[i]? = some (i - a)) ∧
+      t.WF ∧ t.table.Perm (List.range (a + b)) := by
+  refine ⟨⟨List.range' b a ++ List.range b, a + b⟩, twist_eq a b, rfl, by simp, ?_, ?_, ?_, ?_⟩
+  · intro i hi
+    have hl : i < (List.range' b a).length := by simpa using hi
+    show (List.range' b a ++ List.range b)[i]? = _
+    rw [List.getElem?_append_left hl]
+    simp [hi, Nat.add_comm]
+  · intro i h1 h2
+    have hl : (List.range' b a).length ≤ i := by simpa using h1
+    show (List.range' b a ++ List.range b)[i]? = _
+    rw [List.getElem?_append_right hl]
+    have : i - a < b := by omega
+    simp [this]
+  · intro x hx
+    show x < a + b
+    rcases List.mem_append.mp hx with hx | hx
+    · have := List.mem_range'_1.mp hx; omega
+    · have := List.mem_range.mp hx; omega
+  · show (List.range' b a ++ List.range b).Perm (List.range (a + b))
+    have h1 : (List.range' b a ++ List.range b).Perm (List.range b ++ List.range' b a) :=
+      List.perm_append_comm
+    have h2 : List.range b ++ List.range' b a = List.range (a + b) := by
+      rw [List.range_eq_range', List.range_eq_range']
+      have := List.range'_append_1 (s := 0) (m := b) (n := a)
+      rw [Nat.zero_add] at this
+      rw [this, Nat.add_comm]
+    rw [h2] at h1
+    exact h1
+
+example : twist 2 3 = .ok ⟨[3, 4, 0, 1, 2], 5⟩ := by decide
+
+/-- the symmetry is self-inverse: `twist a b ; twist b a = id` -/
+theorem twist_twist (a b : Nat) :
+    ∃ t t', twist a b = .ok t ∧ twist b a = .ok t' ∧ compose t t' = identity (a + b) := by
+  obtain ⟨t, ht, htt, htl, ht1, ht2, htw, _⟩ := twist_spec a b
+  obtain ⟨t', ht', htt', htl', ht1', ht2', htw', _⟩ := twist_spec b a
+  refine ⟨t, t', ht, ht', ?_⟩
+  obtain ⟨r, hr, hrt, hrl, hrp, _, _⟩ := compose_spec t t' htw htw'
+    (by rw [htt, source, htl', Nat.add_comm])
+  rw [hr, identity_eq]
+  congr 1
+  cases r with
+  | mk tb tg =>
+    simp only at hrt hrl hrp
+    rw [hrt, htt', Nat.add_comm b a]
+    congr 1
+    apply eq_range_of_getElem? _ _ (by rw [hrl, htl])
+    intro i hi
+    rw [hrp]
+    by_cases hia : i < a
+    · rw [ht1 i hia]
+      simp only [Option.bind_some]
+      rw [ht2' (i + b) (by omega) (by omega)]
+      congr 1; omega
+    · rw [ht2 i (by omega) hi]
+      simp only [Option.bind_some]
+      rw [ht1' (i - a) (by omega)]
+      congr 1; omega
+
+example : (twist 2 3 >>= fun t => twist 3 2 >>= fun t' => compose t t') = identity 5 := by decide
+
+/-! ## transposition -/
+
+/-- `transpose a b` reads a `b × a` row-major index as column-major: `i ↦ (i % a) * b + i / a`;
+    for `a = 0` it is the empty map with codomain `0` (which the same formula describes) -/
+theorem transpose_spec (a b : Nat) :
+    ∃ t, transpose a b = .ok t ∧ t.target = b * a ∧ t.table.length = b * a ∧
+      (∀ i : Nat, i < b * a → t.table[i]? = some ((i % a) * b + i / a)) ∧ t.WF := by
+  by_cases ha : a = 0
+  · subst ha
+    refine ⟨⟨[], 0⟩, transpose_zero b, by simp, by simp, ?_, ?_⟩
+    · intro i hi; simp at hi
+    · intro x hx; simp at hx
+  · refine ⟨_, transpose_eq a b ha, rfl, by simp, ?_, ?_⟩
+    · intro i hi; simp [hi]
+    · intro x hx
+      simp only [List.mem_map, List.mem_range] at hx
+      obtain ⟨i, hi, rfl⟩ := hx
+      show i % a * b + i / a < b * a
+      have hpos : 0 < a := Nat.pos_of_ne_zero ha
+      have h1 : i % a < a := Nat.mod_lt _ hpos
+      have h2 : i / a < b := by
+        rw [Nat.div_lt_iff_lt_mul hpos]; exact hi
+      have h3 : (i % a + 1) * b ≤ a * b := Nat.mul_le_mul_right b h1
+      rw [Nat.add_mul, Nat.one_mul] at h3
+      rw [Nat.mul_comm b a]
+      omega
+
+theorem transpose_zero_spec (b : Nat) : transpose 0 b = .ok ⟨[], 0⟩ := transpose_zero b
+
+example : transpose 2 3 = .ok ⟨[0, 3, 1, 4, 2, 5], 6⟩ := by decide
+
+/-- transposition is inverted by the transposition with the factors exchanged -/
+theorem transpose_inverse (a b : Nat) :
+    ∃ t t', transpose a b = .ok t ∧ transpose b a = .ok t' ∧ compose t t' = identity (a * b) := by
+  obtain ⟨t, ht, htt, htl, htp, htw⟩ := transpose_spec a b
+  obtain ⟨t', ht', htt', htl', htp', htw'⟩ := transpose_spec b a
+  refine ⟨t, t', ht, ht', ?_⟩
+  obtain ⟨r, hr, hrt, hrl, hrp, _, _⟩ := compose_spec t t' htw htw'
+    (by rw [htt, source, htl', Nat.mul_comm])
+  rw [hr, identity_eq]
+  congr 1
+  cases r with
+  | mk tb tg =>
+    simp only at hrt hrl hrp
+    rw [hrt, htt']
+    congr 1
+    apply eq_range_of_getElem? _ _ (by rw [hrl, htl, Nat.mul_comm])
+    intro i hi
+    have hi' : i < b * a := by rw [Nat.mul_comm]; exact hi
+    have hapos : 0 < a := by
+      rcases Nat.eq_zero_or_pos a with h | h
+      · subst h; simp at hi
+      · exact h
+    have hbpos : 0 < b := by
+      rcases Nat.eq_zero_or_pos b with h | h
+      · subst h; simp at hi
+      · exact h
+    have h1 : i % a < a := Nat.mod_lt _ hapos
+    have h2 : i / a < b := by rw [Nat.div_lt_iff_lt_mul hapos]; exact hi'
+    have hj : i % a * b + i / a < a * b := by
+      have h3 : (i % a + 1) * b ≤ a * b := Nat.mul_le_mul_right b h1
+      rw [Nat.add_mul, Nat.one_mul] at h3
+      omega
+    rw [hrp, htp i hi']
+    simp only [Option.bind_some]
+    rw [htp' _ hj]
+    congr 1
+    have e1 : (i % a * b + i / a) % b = i / a := by
+      rw [Nat.mul_comm, Nat.mul_add_mod, Nat.mod_eq_of_lt h2]
+    have e2 : (i % a * b + i / a) / b = i % a := by
+      rw [Nat.mul_comm, Nat.mul_add_div hbpos, Nat.div_eq_of_lt h2, Nat.add_zero]
+    rw [e1, e2]
+    exact Nat.div_add_mod' i a
+
+example : (transpose 2 3 >>= fun t => transpose 3 2 >>= fun t' => compose t t') = identity 6 := by
+  decide
+
+/-! ## cumulative sum -/
+
+/-- the cumulative sum has the prefix sums as entries and the total as codomain size.
+    NOTE: the entries are `≤` the codomain size, not `<`: see `cumulativeSum_wf_iff`. -/
+theorem cumulativeSum_spec (f : FinFun) :
+    ∃ r, f.cumulativeSum = .ok r ∧ r.target = f.table.sum ∧ r.table.length = f.source ∧
+      (∀ i : Nat, i < f.source → r.table[i]? = some (f.table.take i).sum) ∧
+      (∀ x ∈ r.table, x ≤ r.target) := by
+  refine ⟨_, cumulativeSum_ok f, rfl, by simp, ?_, ?_⟩
+  · intro i hi; simp [hi]
+  · intro x hx
+    simp only [List.mem_map] at hx
+    obtain ⟨k, _, rfl⟩ := hx
+    exact sum_take_le f.table k
+
+/-- the result of `cumulative_sum` is a well-formed finite function only when every proper
+    suffix of the table has a positive sum (i.e. the table is empty or its last entry is not 0) -/
+theorem cumulativeSum_wf_iff (f : FinFun) :
+    (∃ r, f.cumulativeSum = .ok r ∧ r.WF) ↔ ∀ i : Nat, i < f.source → 0 < (f.table.drop i).sum := by
+  have hsplit : ∀ i, (f.table.take i).sum + (f.table.drop i).sum = f.table.sum := by
+    intro i
+    have := congrArg List.sum (List.take_append_drop i f.table)
+    rw [List.sum_append] at this
+    exact this
+  rw [cumulativeSum_ok]
+  constructor
+  · rintro ⟨r, hr, hw⟩ i hi
+    simp only [Res.ok.injEq] at hr
+    subst hr
+    have := hw ((f.table.take i).sum) (List.mem_map.mpr ⟨i, List.mem_range.mpr hi, rfl⟩)
+    have h2 := hsplit i
+    simp only at this
+    omega
+  · intro h
+    refine ⟨_, rfl, ?_⟩
+    intro x hx
+    simp only [List.mem_map, List.mem_range] at hx
+    obtain ⟨i, hi, rfl⟩ := hx
+    have := h i hi
+    have h2 := hsplit i
+    show (f.table.take i).sum < f.table.sum
+    omega
+
+example : (⟨[3, 0, 1, 4], 5⟩ : FinFun).cumulativeSum = .ok ⟨[0, 3, 3, 4], 8⟩ := by decide
+/-- counterexample to well-formedness of the result: trailing zero sizes -/
+example : (⟨[1, 0], 2⟩ : FinFun).cumulativeSum = .ok ⟨[0, 1], 1⟩ ∧
+    ¬ (⟨[0, 1], 1⟩ : FinFun).WF := by decide
+
+/-! ## block-wise injections -/
+
+/-- `s.injections a`: block `j` of the domain `Σ_j s(a j)` is mapped identically onto block `a j`
+    of `Σ s`, which starts at the prefix sum `p (a j) = s 0 + … + s (a j - 1)` -/
+theorem injections_spec (s a : FinFun) (ha : a.WF) (h : a.target = s.source) :
+    ∃ r, injections s a = .ok r ∧ r.target = s.table.sum ∧
+      r.table = a.table.flatMap
+        (fun x => List.range' (s.table.take x).sum (s.table.getD x 0)) ∧
+      r.table.length = (a.table.map (fun x => s.table.getD x 0)).sum ∧ r.WF := by
+  refine ⟨_, injections_ok s a ha h, rfl, rfl, by simp [List.length_flatMap], ?_⟩
+  intro y hy
+  simp only [List.mem_flatMap] at hy
+  obtain ⟨x, hx, hyx⟩ := hy
+  have hxl : x < s.table.length := by have := ha x hx; rw [h] at this; exact this
+  have h1 := List.mem_range'_1.mp hyx
+  have h2 := sum_take_succ s.table x hxl
+  have h3 := sum_take_le s.table (x + 1)
+  have h4 : s.table.getD x 0 = s.table[x] := by simp [List.getD, List.getElem?_eq_getElem hxl]
+  show y < s.table.sum
+  omega
+
+/-- absence (not a panic) when the selector does not index the sizes -/
+theorem injections_none_of_ne (s a : FinFun) (h : a.target ≠ s.source) : injections s a = .none :=
+  injections_none s a h
+
+example : (⟨[2, 0, 2], 3⟩ : FinFun).WF ∧
+    injections ⟨[2, 0, 3], 4⟩ ⟨[2, 0, 2], 3⟩ = .ok ⟨[2, 3, 4, 0, 1, 2, 3, 4], 5⟩ := by decide
+example : injections ⟨[2, 0, 3], 4⟩ ⟨[2, 0, 2], 4⟩ = .none := by decide
+
+/-! ## injectivity test -/
+
+theorem isInjective_spec (f : FinFun) (hf : f.WF) :
+    ∃ b, isInjective f = .ok b ∧ (b = true ↔ f.table.Nodup) ∧
+      (b = true ↔ ∀ i j : Nat, i < f.source → j < f.source → f.table[i]? = f.table[j]? → i = j) := by
+  refine ⟨decide f.table.Nodup, isInjective_ok f hf, by simp, ?_⟩
+  rw [decide_eq_true_iff]
+  exact nodup_iff_inj f.table
+
+example : isInjective ⟨[2, 0, 3], 4⟩ = .ok true ∧ isInjective ⟨[2, 0, 2], 4⟩ = .ok false := by
+  decide
+
+/-! ## pre-composition with a label array -/
+
+theorem composeSemi_spec {α : Type} (f : FinFun) (labels : List α) :
+    (f.WF → f.target = labels.length →
+      ∃ r, composeSemi f labels = .ok r ∧ r.length = f.source ∧
+        r.map some = f.table.map (fun x => labels[x]?) ∧
+        (∀ i : Nat, r[i]? = f.table[i]?.bind (fun x => labels[x]?))) ∧
+    (composeSemi f labels = .none ↔ f.target ≠ labels.length) := by
+  constructor
+  · intro hf h
+    have hr : ∀ i ∈ f.table, i < labels.length := fun i hi => by
+      have := hf i hi; rw [h] at this; exact this
+    refine ⟨_, composeSemi_ok f labels hf h, gatherP_length _ _ hr, ?_, gatherP_getElem? _ _ hr⟩
+    apply List.ext_getElem?
+    intro i
+    rw [List.getElem?_map, gatherP_getElem? _ _ hr, List.getElem?_map]
+    cases hfi : f.table[i]? with
+    | none => rfl
+    | some x =>
+      have hx : x < labels.length := hr x (List.mem_of_getElem? hfi)
+      simp [List.getElem?_eq_getElem hx]
+  · unfold composeSemi
+    by_cases h : f.target = labels.length
+    · simp [h, gather_ne_none]
+    · simp [h]
+
+example : composeSemi ⟨[2, 0, 2, 1], 3⟩ ["a", "b", "c"] = .ok ["c", "a", "c", "b"] := by decide
+example : composeSemi ⟨[2, 0, 2, 1], 4⟩ ["a", "b", "c"] = .none := by decide
+
+/-! ## coequalizer -/
+
+/-- the relation generated by the pairs `f(k) ~ g(k)` -/
+def Glue (f g : FinFun) (a b : Nat) : Prop := ∃ k : Nat, f.table[k]? = some a ∧ g.table[k]? = some b
+
+theorem connected_eq_glue (f g : FinFun) :
+    Connected f.table g.table = Relation.EqvGen (Glue f g) := by
+  have : EdgeRel f.table g.table = Glue f g := by
+    funext a b
+    exact propext (mem_zip_iff_getElem? f.table g.table a b)
+  unfold Connected
+  rw [this]
+
+/-- the coequalizer of two parallel well-formed maps, for every lawful backend: a surjection
+    `q : B → Q` whose kernel is exactly the equivalence generated by `f(k) ~ g(k)` -/
+theorem coequalizer_spec (B : Backend) (hB : B.Lawful) (f g : FinFun) (hf : f.WF) (hg : g.WF)
+    (hs : f.source = g.source) (ht : f.target = g.target) :
+    ∃ q, coequalizer B f g = .ok q ∧ q.source = f.target ∧ q.WF ∧
+      (∀ c : Nat, c < q.target → ∃ i : Nat, i < f.target ∧ q.table[i]? = some c) ∧
+      (∀ i j : Nat, i < f.target → j < f.target →
+        (q.table[i]? = q.table[j]? ↔
+          Relation.EqvGen (fun a b => ∃ k : Nat, f.table[k]? = some a ∧ g.table[k]? = some b) i j)) ∧
+      (∀ k a b : Nat, f.table[k]? = some a → g.table[k]? = some b → q.table[a]? = q.table[b]?) := by
+  have hg' : ∀ x ∈ g.table, x < f.target := fun x hx => by rw [ht]; exact hg x hx
+  have hlen : f.table.length = g.table.length := hs
+  have hcc : Prim.connectedComponents B f.table g.table f.target =
+      .ok (B.cc f.table g.table f.target) := by
+    unfold Prim.connectedComponents
+    rw [if_neg (by simpa using hlen), if_neg, if_neg]
+    · simp only [List.all_eq_true, decide_eq_true_eq]
+      exact fun hn => hn ⟨hf, hg'⟩
+    · rintro ⟨h0, hne⟩
+      apply hne
+      cases hft : f.table with
+      | nil => rfl
+      | cons x xs =>
+        have := hf x (by rw [hft]; simp)
+        omega
+  have hlenq := hB.cc_length f.table g.table f.target hlen hf hg'
+  have hker := hB.cc_kernel f.table g.table f.target hlen hf hg'
+  refine ⟨⟨(B.cc f.table g.table f.target).1, (B.cc f.table g.table f.target).2⟩, ?_, hlenq,
+    hB.cc_lt f.table g.table f.target hlen hf hg', ?_, ?_, ?_⟩
+  · unfold coequalizer
+    rw [if_neg (by simp [hs, ht]), hcc]
+    rfl
+  · intro c hc
+    have := hB.cc_onto f.table g.table f.target hlen hf hg' c hc
+    obtain ⟨i, hi⟩ := List.mem_iff_getElem?.mp this
+    refine ⟨i, ?_, hi⟩
+    rw [← hlenq]
+    exact (List.getElem?_eq_some_iff.mp hi).1
+  · intro i j hi hj
+    have := hker i j hi hj
+    rw [connected_eq_glue] at this
+    exact this
+  · intro k a b hka hkb
+    have ha : a < f.target := hf.getElem?_lt hka
+    have hb : b < f.target := by rw [ht]; exact hg.getElem?_lt hkb
+    have := hker a b ha hb
+    rw [connected_eq_glue] at this
+    exact this.mpr (Relation.EqvGen.rel _ _ ⟨k, hka, hkb⟩)
+
+/-- absence is reported exactly for non-parallel arguments -/
+theorem coequalizer_none_iff (B : Backend) (f g : FinFun) :
+    coequalizer B f g = .none ↔ (f.source ≠ g.source ∨ f.target ≠ g.target) := by
+  unfold coequalizer
+  by_cases h : f.source ≠ g.source ∨ f.target ≠ g.target
+  · simp [h]
+  · rw [if_neg h]
+    simp only [h, iff_false]
+    unfold Prim.connectedComponents
+    split
+    · simp
+    · split
+      · simp
+      · split <;> simp
+
+/-- on well-formed parallel arguments the coequalizer never panics (any lawful backend) -/
+theorem coequalizer_no_panic (B : Backend) (hB : B.Lawful) (f g : FinFun) (hf : f.WF) (hg : g.WF)
+    (s : String) : coequalizer B f g ≠ .panic s := by
+  by_cases h : f.source ≠ g.source ∨ f.target ≠ g.target
+  · rw [(coequalizer_none_iff B f g).mpr h]; simp
+  · have hs : f.source = g.source := by
+      by_cases h' : f.source = g.source
+      · exact h'
+      · exact absurd (Or.inl h') h
+    have ht : f.target = g.target := by
+      by_cases h' : f.target = g.target
+      · exact h'
+      · exact absurd (Or.inr h') h
+    obtain ⟨q, hq, _⟩ := coequalizer_spec B hB f g hf hg hs ht
+    rw [hq]; simp
 
 end OH.C06
